@@ -71,6 +71,7 @@ type RunResult struct {
 	Wall         time.Duration
 	Logs         []PathLog
 	MapRangeSites map[string]string
+	BoundPrunes  map[string]int64
 	MemEvents    int64
 	Samples      []string
 }
@@ -94,6 +95,7 @@ type Run struct {
 	violations                      []Violation
 	reached                         map[string]int64
 	inconclusive                    map[string]int
+	prunes                          map[string]int64
 	logs                            []PathLog
 	samples                         []string
 	mapRangeSites                   sync.Map
@@ -156,6 +158,15 @@ func (r *Run) stop() {
 func (r *Run) reach(label string) {
 	r.mu.Lock()
 	r.reached[label]++
+	r.mu.Unlock()
+}
+
+func (r *Run) notePrune(label string) {
+	r.mu.Lock()
+	if r.prunes == nil {
+		r.prunes = map[string]int64{}
+	}
+	r.prunes[label]++
 	r.mu.Unlock()
 }
 
@@ -398,7 +409,7 @@ func (p *Program) Explore(name string, entry *ssa.Function, args []Value, opts O
 	res := &RunResult{Harness: name, Paths: r.paths.Load(), Done: r.done.Load(), Killed: r.killed.Load(), Panicked: r.panicked.Load(),
 		Failed: r.failed.Load(), Forks: r.forks.Load(), Steps: r.steps.Load(), Obligations: r.obl.Load(), Discharged: r.discharged.Load(),
 		Violations: r.violations, Reached: r.reached, Wall: time.Since(t0), Logs: r.logs, MemEvents: r.memEvents.Load(), Samples: r.samples,
-		MapRangeSites: map[string]string{}}
+		MapRangeSites: map[string]string{}, BoundPrunes: r.prunes}
 	r.mapRangeSites.Range(func(k, v any) bool { res.MapRangeSites[k.(string)] = v.(string); return true })
 	for _, w := range workers {
 		if w.solver.Err != "" {
